@@ -80,7 +80,7 @@ def run_pipeline(P, tier, seed, replay=None):
     rng = random.Random(seed)
     if replay:
         rp = json.load(open(replay))
-        cases = [props.Case("replay-%d" % i, c["line"], c.get("meta", {})) for i, c in enumerate(rp.get("cases", []))]
+        cases = [props.Case("replay-%d" % i, c["line"], P.meta_from_json(c.get("meta", {}))) for i, c in enumerate(rp.get("cases", []))]
         if not cases:
             print("replay file names no concrete case (%s); re-running the quick tier instead" % rp.get("what", ""))
             cases = P.corpus() + P.gen(rng, tier)
@@ -127,10 +127,14 @@ def run_pipeline(P, tier, seed, replay=None):
     if violations:
         violations.sort(key=lambda v: len(v[0].line))
         c, why, cls = violations[0]
-        c2 = P.shrink(c, lambda cc: P.oracle(cc, dv.run_impl([cc.text()]).get(cc.id)) is not None)
+        def same_failure(cc):
+            w2 = P.oracle(cc, dv.run_impl([cc.text()]).get(cc.id))
+            return w2 is not None and P.classify(cc, w2) == cls
+        c2 = P.shrink(c, same_failure)
+        why = P.oracle(c2, dv.run_impl([c2.text()]).get(c2.id)) or why
         io = dv.run_impl([c2.text()]).get(c2.id)
         mo = dv.run_model([c2.text()]).get(c2.id)
-        path = dv.write_replay(P.id, seed, 0, {"what": why, "class": cls, "cases": [{"line": c2.line, "meta": c2.meta}],
+        path = dv.write_replay(P.id, seed, 0, {"what": why, "class": cls, "cases": [{"line": c2.line, "meta": P.meta_to_json(c2.meta)}],
                                                 "implementation": io, "model": mo, "other_failing_cases": len(violations) - 1})
         print("VIOLATION property=%s replay=%s" % (P.id, path))
         print("  %s" % why)
